@@ -459,6 +459,21 @@ impl ASN1Type {
                     }
                 }
             }
+            // an INTEGER written in place with named numbers of its own: a name in its
+            // constraint is looked up in that list before any other type's
+            ASN1Type::Integer(i) if i.distinguished_values.is_some() => {
+                let key = format!("{name}.");
+                let mut own = tlds.clone();
+                let mut unconstrained = i.clone();
+                unconstrained.constraints.clear();
+                own.insert(
+                    key.clone(),
+                    ToplevelDefinition::Type((key.as_str(), ASN1Type::Integer(unconstrained)).into()),
+                );
+                for c in i.constraints.iter_mut() {
+                    c.link_cross_reference(&key, &own)?;
+                }
+            }
             ty => {
                 if let Some(c) = ty.constraints_mut() {
                     for c in c.iter_mut() {
